@@ -19,13 +19,13 @@ CHECKS = {
         ref="DESIGN.md 6 C02",
     ),
     "C05": dict(
-        technique="property-based testing against an independent terminal-position oracle; exhaustive K+X v K families",
+        technique="property-based testing against an independent terminal-position oracle; exhaustive K+X v K families; mined terminal positions with pinned pseudo-legal moves",
         text="Generated-input search: the oracle classifies every generated position as checkmate / stalemate / has a move; the evaluator must return exactly -/+mate_in_ply(ply), exactly 0, or a non-terminal score. Complete K+X v K families (exhaustive), random games, constructed positions and all their successors; mate scores checked terminal and non-increasing for ply 0..10000.",
         note=ORACLE + "; material imbalance kept <= 70 pawn units (property bounds it at 90); ply < 2^31",
         ref="DESIGN.md 6 C05",
     ),
     "C08": dict(
-        technique="property-based metamorphic testing of the hash: generated equal pairs (transpositions, counters, FEN re-parse) and single-component mutations, over generated hasher seeds",
+        technique="property-based metamorphic testing of the hash: generated equal pairs (transpositions, counters, FEN re-parse), single-component mutations and whole families that must hash injectively, over generated hasher seeds",
         text="Generated-input search over pairs of legal positions: pairs the oracle shows equal in placement/side/rights/ep must hash equal (different counters, FEN re-parse, two move orders transposing); pairs differing in exactly one rule-relevant component (piece moved/added/removed/recoloured/re-kinded, side, castling subset, legally available ep capture) must hash differently, for generated hasher seeds. Pairs the property leaves free are counted, not judged.",
         note=ORACLE + "; chance 64-bit collisions (2^-64 per pair) would be reported, probability < 1e-11 per run",
         ref="DESIGN.md 6 C08",
@@ -104,12 +104,12 @@ CHECKS = {
     ),
     "C14": dict(
         technique="grammar-based and mutation-based fuzzing with proptest (oracle-written FEN/SAN + structural mutations, alphabets, arbitrary Unicode) in two build profiles, plus generated malformed UCI sessions against the real process",
-        text="Generated-input search: every generated string is read as FEN and as SAN under catch_unwind in the checked build (debug assertions + overflow checks) and in a plain release build (child process); generated UCI sessions of malformed lines must keep answering isready and exit 0 on quit.",
-        note="input size bounded (<= 1 MB) so hangs cannot hide; go is only sent at the start position",
+        text="Generated-input search: every generated string is read as FEN and as SAN under catch_unwind in the checked build (debug assertions + overflow checks) and in a plain release build (child process); generated UCI sessions of malformed lines (bad tokens, mutated FENs, bad numbers, protocol commands with shuffled keywords, unreachable boards followed by a search) must keep answering isready and exit 0 on quit.",
+        note="every reader call is registered with a hang watcher (60 s); go is sent at the start position, at one legal position outside the book and on ten unreachable but searchable boards; lines are valid UTF-8; boards without a king are not searched",
         ref="DESIGN.md 6 C14",
     ),
     "C16": dict(
-        technique="exhaustive differential check of the built book against an independent PGN/SAN replay of all book games, plus property-based generation of right-stripped variants and real move histories",
+        technique="exhaustive differential check of the built book against an independent PGN/SAN replay of all book games, plus property-based generation of right-stripped variants, real move histories and UCI sessions with rejected position commands",
         text="Exhaustive over the stated finite space (all positions in the first ten plies of all 7888 games in 132 files): lookup equals the independently replayed move set and is legal. Generated-input search for the rest: right-stripped / ep-dropped / side-flipped variants and real tempo-losing move histories must be offered nothing or only legal moves, and exactly the recorded set wherever a recorded position is reached.",
         note="oracle PGN+SAN readers must replay every game (exit 2 otherwise); ep availability = pseudo-legal availability, mismatches with legal availability counted",
         ref="DESIGN.md 6 C16",
